@@ -126,7 +126,7 @@ class Design:
     tmp.path = lambda e: (name, uidx, off, w, pt, ud)
     tmp.write(l, v)
   # ---- whole-design evaluation
-  def settle(s, vals, max_rounds=300):
+  def settle(s, vals, max_rounds=40):
     """evaluate all continuous/comb processes repeatedly until no term changes (syntactic fixed point)"""
     env = s.env; env.vals = {n: deepvals(v) for n, v in vals.items()}
     def flat(v, out):
@@ -144,6 +144,12 @@ class Design:
       env.vals = {n: simp(v) for n, v in env.vals.items()}
       cur = sig(); s.rounds += 1
       if len(cur) == len(prev) and all(a.eq(b) for a, b in zip(cur, prev)): return env.vals
+      if r >= 6 and len(cur) == len(prev):
+        # z3.simplify is not syntactically stable (argument order of AC operators): after a few rounds decide the
+        # fixed point semantically -- every variable equal to its previous-round value for all inputs
+        diff = [a != b for a, b in zip(cur, prev) if not a.eq(b)]
+        sv = z3.Solver(); sv.set('timeout', 20000); sv.add(z3.Or(*diff))
+        if sv.check() == z3.unsat: return env.vals
       prev = cur
     raise SVUnsupported("no syntactic fixed point: combinational loop?")
   def run_proc(s, p):
